@@ -27,6 +27,12 @@ func (fc *FnCtx) genBody(in *State, reachIn string) {
 	fc.hdrVars = map[*ssa.BasicBlock]map[string]Val{}
 	fc.iters = map[ssa.Value]*iterInfo{}
 	fc.named = map[string]*ssa.Alloc{}
+	if fc.lockSnap == nil {
+		fc.lockSnap = map[string]*State{}
+		if fc.parent != nil {
+			fc.lockSnap = fc.parent.lockSnap
+		}
+	}
 	rpo := fc.analyzeCFG()
 	savedLoops := g.curLoops
 
@@ -219,6 +225,10 @@ func (fc *FnCtx) loopHeader(h *ssa.BasicBlock, phiEntry map[*ssa.Phi]string) {
 		fc.vals[phi] = Val{t: t, ty: phi.Type()}
 		if rc := g.sorts.rangeConstraint(phi.Type(), t); rc != "" {
 			fc.assume(rc, "range")
+		}
+		if phi.Comment == "rangeindex" {
+			// compiler-generated index of a range loop: starts at -1 and only increments
+			fc.assume(fmt.Sprintf("(and (>= %s (- 1)) (< %s 9223372036854775807))", t, t), "rangeindex in [-1, len)")
 		}
 	}
 	hv := fc.headerVars(h, phiNew)
